@@ -100,6 +100,32 @@ func c01CheckRead(st *Store, root cid.Cid, data []byte, how string, bufSize int)
 			return fmt.Errorf("%s: tail after io.Copy + relative seek: %d bytes (err %v), want %d", how, len(tail), err, k)
 		}
 	}
+	// io.Copy (which uses a WriterTo when the reader offers one) from a reader that is not at the start: positioned by a
+	// Seek to an interior offset, and after a partial Read
+	if len(data) >= 3 {
+		k := int64(len(data)/3 + bufSize%2)
+		rs5, _ := lb.AsLargeBytes()
+		if _, err := rs5.Seek(k, io.SeekStart); err != nil {
+			return fmt.Errorf("%s: Seek(%d,Start): %v", how, k, err)
+		}
+		var out5 bytes.Buffer
+		if _, err := io.Copy(&out5, rs5); err != nil || !bytes.Equal(out5.Bytes(), data[k:]) {
+			return fmt.Errorf("%s: io.Copy after Seek(%d,Start) delivered %d bytes (err %v), want %d (first diff at %d)", how, k, out5.Len(), err, int64(len(data))-k, firstDiff(out5.Bytes(), data[k:]))
+		}
+		rs6, _ := lb.AsLargeBytes()
+		head := make([]byte, 1+bufSize%int(k+1))
+		hn, err := io.ReadFull(rs6, head)
+		if err != nil || !bytes.Equal(head[:hn], data[:hn]) {
+			return fmt.Errorf("%s: ReadFull of the first %d bytes: %d, %v", how, len(head), hn, err)
+		}
+		var out6 bytes.Buffer
+		if _, err := io.Copy(&out6, rs6); err != nil || !bytes.Equal(out6.Bytes(), data[hn:]) {
+			return fmt.Errorf("%s: io.Copy after reading the first %d bytes delivered %d bytes (err %v), want %d (first diff at %d)", how, hn, out6.Len(), err, len(data)-hn, firstDiff(out6.Bytes(), data[hn:]))
+		}
+		if p, err := rs6.Seek(0, io.SeekCurrent); err != nil || p != int64(len(data)) {
+			return fmt.Errorf("%s: position after read + io.Copy = %d,%v want %d", how, p, err, len(data))
+		}
+	}
 	// streamed read from an interior position over storage that fails one load (transiently): the caller retries the
 	// Read that reported the error; what comes out in the end must be exactly the rest of the file
 	if len(data) >= 3 {
